@@ -16,6 +16,8 @@ import (
 	log "github.com/sirupsen/logrus"
 )
 
+const learnAddressesInterval time.Duration = 1 * time.Second
+
 var (
 	GroupAlreadyExistsError error = errors.New("Group already exists")
 	GroupNotFoundError      error = errors.New("Group not found")
@@ -30,6 +32,9 @@ type RaftTransport struct {
 	nodeClientsMu sync.RWMutex
 	groups        map[uuid.UUID]*RaftGroup
 	groupsMu      sync.RWMutex
+
+	learnAddressesAt time.Time
+	learnAddressesMu sync.Mutex
 }
 
 func NewTransport(nodeId uint64, address string, clusterConn *cluster.Conn) *RaftTransport {
@@ -166,6 +171,9 @@ func (this *RaftTransport) getNodeRaftTransportClient(nodeId uint64) (pb.RaftTra
 	this.nodeClientsMu.RUnlock()
 
 	conn, err := this.clusterConn.Dial(nodeId)
+	if err == cluster.NodeAddressNotFoundError && this.learnAddresses() {
+		conn, err = this.clusterConn.Dial(nodeId)
+	}
 	if err != nil {
 		return nil, err
 	}
@@ -175,4 +183,38 @@ func (this *RaftTransport) getNodeRaftTransportClient(nodeId uint64) (pb.RaftTra
 
 	this.nodeClients[nodeId] = pb.NewRaftTransportClient(conn)
 	return this.nodeClients[nodeId], nil
+}
+
+// Asks the known members for their node lists. A member learns addresses from the
+// membership log, but to receive the log it has to answer its leader, which may be a
+// node that joined after this member's last entry.
+func (this *RaftTransport) learnAddresses() bool {
+	this.learnAddressesMu.Lock()
+	defer this.learnAddressesMu.Unlock()
+	if time.Since(this.learnAddressesAt) < learnAddressesInterval {
+		return false
+	}
+	this.learnAddressesAt = time.Now()
+
+	learned := false
+	for nodeId, _ := range this.clusterConn.Nodes() {
+		if nodeId == this.nodeId {
+			continue
+		}
+		conn, err := this.clusterConn.Dial(nodeId)
+		if err != nil {
+			continue
+		}
+		ctx, cancelCtx := context.WithTimeout(context.Background(), 500*time.Millisecond)
+		nodesStream, err := pb.NewNodesManagerClient(conn).ListNodes(ctx, &pb.EmptyMessage{})
+		for err == nil {
+			var node *pb.Node
+			if node, err = nodesStream.Recv(); err == nil {
+				this.clusterConn.AddNode(node.GetId(), node.GetAddress())
+				learned = true
+			}
+		}
+		cancelCtx()
+	}
+	return learned
 }
